@@ -214,3 +214,142 @@ Proof.
   split; [split; [reflexivity|]; split; [reflexivity|]; split; repeat (constructor; [split; reflexivity|]); constructor|].
   repeat split; vm_compute; reflexivity.
 Qed.
+
+(* ------------------------------------------------------------------------------------------ *)
+(* The classifier and the constructor on the C text: rstr_simple, rstr_make, rstr_free of /repo/rstr.c (translated: GenCFuncs.F_rstr_simple,
+   F_rstr_make, F_rstr_free; whitelist tools/c2clite.d/96a_rsetfind.list), proofs in coq/TrRstrMake.v.
+   C12_classifier / C12_simple_forms above speak about the hand-written RstrDefs.rstr_simple; C12_tr_rstr_find assumes a struct rstr of the
+   right shape in memory.  The theorems below tie the classifier to the C TEXT and show that rstr_make BUILDS that struct, so that the chain
+   pattern string -> rstr_make -> rstr_find on the C text equals the declarative spec without any assumption about the struct.
+   struct rstr = block of 7 cells (rs, str, icase, lbeg, lend, wbeg, wend) = TrRstr.rstr_block; the literal "\\.*+?[]{}()$|^" of rstr_simple
+   is the global block G_meta (= GenConsts.rstr_meta, which tools/translate.py reads from the same line of rstr.c); c2clite gives the
+   address-taken parameter `re` of rstr_make a 1-cell block of its own, which the term never frees. *)
+From NV Require Import CLiteExt TrRstrMake.
+
+(* static int rstr_simple(struct rstr *rs, char *re): rs points to ANY 7-cell block, re into a NUL-free C string at any offset o.
+   The model says Some r: the call returns 0, lbeg / lend / wbeg / wend hold r's flags, rs->str points to a FRESH block (index length m)
+   holding exactly r's literal and its terminator (malloc(len + 1), memcpy, the store of the terminator inside the block); rs->rs and
+   rs->icase are untouched.  The model says None: 1, only the four flag cells are written, nothing is allocated.  The loop
+   `while (re[0] && !strchr(META, (unsigned char) re[0]))` stops where span_lit stops, and strchr is not asked about the terminator. *)
+Theorem C12_tr_rstr_simple : forall (m : mem) rb c0 c1 c2 c3 c4 c5 c6 b (s : bytes) o ic d fuel,
+  nth_error m rb = Some [c0; c1; c2; c3; c4; c5; c6] -> str_at m b s -> nonul s -> (o <= length s)%nat -> rb <> b ->
+  nth_error m G_meta = Some gb_meta -> Z.of_nat (length s) < 2147483647 -> (length s < fuel)%nat ->
+  match rstr_simple ic (skipn o s) with
+  | Some r =>
+      callf cprog fuel (S d) F_rstr_simple [VPtr rb 0; VPtr b (Z.of_nat o)] m
+      = Ok (VInt 0, upd m rb [c0; VPtr (length m) 0; c2; VInt (b2z (r_lbeg r)); VInt (b2z (r_lend r)); VInt (b2z (r_wbeg r)); VInt (b2z (r_wend r))]
+                    ++ [cstr_block (zb (r_str r))]) /\ r_icase r = ic
+  | None =>
+      exists lb le wb we, callf cprog fuel (S d) F_rstr_simple [VPtr rb 0; VPtr b (Z.of_nat o)] m
+                          = Ok (VInt 1, upd m rb [c0; c1; c2; VInt lb; VInt le; VInt wb; VInt we])
+  end.
+Proof. exact tr_rstr_simple_model. Qed.
+Print Assumptions C12_tr_rstr_simple.
+
+(* struct rstr *rstr_make(char *re, int flg) on a pattern the classifier accepts: the struct returned is
+   rstr_block: rs == NULL, str -> the literal, icase = flg & RE_ICASE, the anchor flags as the model's classifier says -- exactly the
+   hypothesis of C12_tr_rstr_find; the memory only grew (the cell of `re`, the struct, the literal) *)
+Theorem C12_tr_rstr_make : forall (m : mem) b (s : bytes) o flg ic r d fuel,
+  str_at m b s -> nonul s -> (o <= length s)%nat -> nth_error m G_meta = Some gb_meta ->
+  Z.of_nat (length s) < 2147483647 -> (length s < fuel)%nat -> rstr_simple ic (skipn o s) = Some r ->
+  callf cprog fuel (S (S d)) F_rstr_make [VPtr b (Z.of_nat o); VInt flg] m
+  = Ok (VPtr (S (length m)) 0,
+        m ++ [[VPtr b (Z.of_nat o)];
+              rstr_block (S (S (length m))) (Z.land flg RE_ICASE) (b2z (r_lbeg r)) (b2z (r_lend r)) (b2z (r_wbeg r)) (b2z (r_wend r));
+              cstr_block (zb (r_str r))]).
+Proof. exact tr_rstr_make_model. Qed.
+Print Assumptions C12_tr_rstr_make.
+
+(* THE CHAIN: for every pattern string in memory that the classifier accepts (ignore-case = flg & RE_ICASE), rstr_make returns a struct and,
+   on the memory it leaves, for EVERY newline-terminated line in a block that existed before, every group count and flag word, the
+   translated rstr_find answers the declarative spec: 0 and group 0 = the leftmost position where the spec holds (groups >= 1 unset), or -1
+   with the memory unchanged.  (C12_tr_rstr_make composed with C12_tr_rstr_find_spec; no hypothesis about the struct is left.) *)
+Theorem C12_tr_rstr_make_find_spec : forall (m : mem) bp (p : bytes) flg rs sb gb content n flg2 (gold : block) d fuel,
+  let ic := nz (Z.land flg RE_ICASE) in
+  str_at m bp p -> nonul p -> ~ In 10%N p -> nth_error m G_meta = Some gb_meta -> rstr_simple ic p = Some rs ->
+  nonul content -> ~ In 10%N content -> str_at m sb (content ++ [10%N]) -> nth_error m gb = Some gold -> length gold = (2 * Z.to_nat n)%nat ->
+  2 * n <= 2147483647 -> Z.of_nat (length p) < 2147483647 -> Z.of_nat (length content) < 2147483647 ->
+  (length p < fuel)%nat -> (length content + Z.to_nat n + 2 < fuel)%nat ->
+  exists m',
+    callf cprog fuel (S (S d)) F_rstr_make [VPtr bp 0; VInt flg] m = Ok (VPtr (S (length m)) 0, m') /\
+    (forall b, (b < length m)%nat -> nth_error m' b = nth_error m b) /\
+    callf cprog fuel (S (S d)) F_rstr_find [VPtr (S (length m)) 0; VPtr sb 0; VInt n; VPtr gb 0; VInt flg2] m' =
+    match spec_find (spat_of rs) ic (nz (Z.land flg2 RE_NOTBOL)) content with
+    | Some i => Ok (VInt 0, upd m' gb (grp_block (rstr_groups (Z.to_nat n) (Z.of_nat i) (Z.of_nat (i + length (r_str rs))))))
+    | None => Ok (VInt (-1), m')
+    end.
+Proof. exact tr_rstr_make_find_spec. Qed.
+Print Assumptions C12_tr_rstr_make_find_spec.
+
+(* the dispatch: a pattern the classifier rejects (so_simple = false: RstrDefs.rstr_simple answers None, TrRstrMake.rstr_simple_off) goes
+   to rset_make(1, &re, flg) on exactly the memory rstr_simple left -- the cell of `re`, the struct with the four anchor flags written and
+   str == NULL; stated for EVERY oracle (CLiteExt.callx: rset_make reaches regcomp) and every answer of that call that leaves the struct
+   alone: a set -> the struct with rs = that set is returned; NULL -> the struct is freed and NULL is returned *)
+Theorem C12_tr_rstr_make_general : forall ext (m m4 : mem) b (s : bytes) o flg v d fuel,
+  str_at m b s -> nonul s -> (o <= length s)%nat -> nth_error m G_meta = Some gb_meta ->
+  Z.of_nat (length s) < 2147483647 -> (length s < fuel)%nat -> so_simple s o = false ->
+  let S0 := [VInt 0; VInt 0; VInt (Z.land flg 1); VInt (b2z (so_lbeg s o)); VInt (b2z (so_lend s o)); VInt (b2z (so_wbeg s o)); VInt (b2z (so_wend s o))] in
+  callx ext cprog fuel (S d) F_rset_make [VInt 1; VPtr (length m) 0; VInt flg] (m ++ [[VPtr b (Z.of_nat o)]; S0]) = Ok (v, m4) ->
+  nth_error m4 (S (length m)) = Some S0 -> (v = VInt 0 \/ exists br, v = VPtr br 0) ->
+  callx ext cprog fuel (S (S d)) F_rstr_make [VPtr b (Z.of_nat o); VInt flg] m
+  = match v with
+    | VPtr _ _ => Ok (VPtr (S (length m)) 0,
+                      upd m4 (S (length m)) [v; VInt 0; VInt (Z.land flg 1); VInt (b2z (so_lbeg s o)); VInt (b2z (so_lend s o)); VInt (b2z (so_wbeg s o)); VInt (b2z (so_wend s o))])
+    | _ => Ok (VInt 0, upd m4 (S (length m)) [])
+    end.
+Proof. exact tr_rstr_make_general. Qed.
+Print Assumptions C12_tr_rstr_make_general.
+Theorem C12_rstr_simple_off : forall s, nonul s -> forall o, (o <= length s)%nat -> forall ic,
+  rstr_simple ic (skipn o s) = if so_simple s o then Some (mk_rstr (so_lit s o) ic (so_lbeg s o) (so_lend s o) (so_wbeg s o) (so_wend s o)) else None.
+Proof. exact rstr_simple_off. Qed.
+Print Assumptions C12_rstr_simple_off.
+
+(* void rstr_free(struct rstr *rs) on a struct of the fast path: the literal and the struct are freed (their blocks are empty afterwards: a
+   later access is EOob, a second free an error), nothing else changes; on a struct of the general path: rset_free(rs->rs), relative to that call *)
+Theorem C12_tr_rstr_free : forall (m : mem) rb bs ic lb le wb we (blk : block) d fuel,
+  nth_error m rb = Some (rstr_block bs ic lb le wb we) -> nth_error m bs = Some blk -> blk <> [] -> rb <> bs ->
+  callf cprog fuel (S d) F_rstr_free [VPtr rb 0] m = Ok (VUndef, upd (upd m bs []) rb []).
+Proof. exact tr_rstr_free_simple. Qed.
+Print Assumptions C12_tr_rstr_free.
+Theorem C12_tr_rstr_free_general : forall ext (m m1 : mem) rb br c2 c3 c4 c5 c6 u D fuel,
+  nth_error m rb = Some [VPtr br 0; VInt 0; c2; c3; c4; c5; c6] ->
+  callx ext cprog fuel D F_rset_free [VPtr br 0] m = Ok (u, m1) ->
+  nth_error m1 rb = Some [VPtr br 0; VInt 0; c2; c3; c4; c5; c6] ->
+  callx ext cprog fuel (S D) F_rstr_free [VPtr rb 0] m = Ok (VUndef, upd m1 rb []).
+Proof. exact tr_rstr_free_general. Qed.
+Print Assumptions C12_tr_rstr_free_general.
+
+(* non-vacuity: the translated functions RUN.  Memory: the global blocks, then block G = the pattern "\<ab", G+1 = the line "x ab\n", G+2 =
+   int grps[4].  rstr_make("\<ab", 0) returns the struct G+4 = {NULL, -> G+5, icase 0, lbeg 0, lend 0, wbeg 1, wend 0} with "ab" in G+5 (G+3 is
+   the cell of `re`); rstr_find on that struct finds (2, 4), groups >= 1 unset; the model's classifier agrees; rstr_free empties G+4 and G+5.
+   "a|b" is not simple: under an oracle of regcomp that rejects, rstr_make returns NULL and everything it and rset_make allocated is freed;
+   under one that accepts it returns a struct whose rs points to the set (grp = {2, 3}, grpcnt = 3). *)
+Definition C12_G : nat := length cglobals.
+Definition C12_mk_mem : mem := cglobals ++ [cstr_block [92; 60; 97; 98]; cstr_block [120; 32; 97; 98; 10]; [VUndef; VUndef; VUndef; VUndef]].
+Definition C12_ext_regcomp (r : Z) : nat -> list val -> mem -> res (val * mem) :=
+  fun f args m => if Nat.eqb f X_regcomp then Ok (VInt r, m) else Err EShape.
+Example C12_tr_make_nonvacuous :
+  (exists m', callf cprog 100 5 F_rstr_make [VPtr C12_G 0; VInt 0] C12_mk_mem = Ok (VPtr (C12_G + 4) 0, m') /\
+     skipn (length C12_mk_mem) m' = [[VPtr C12_G 0]; rstr_block (C12_G + 5) 0 0 0 1 0; cstr_block [97; 98]] /\
+     (exists m2, callf cprog 100 3 F_rstr_find [VPtr (C12_G + 4) 0; VPtr (C12_G + 1) 0; VInt 2; VPtr (C12_G + 2) 0; VInt 0] m' = Ok (VInt 0, m2) /\
+                 nth_error m2 (C12_G + 2) = Some [VInt 2; VInt 4; VInt (-1); VInt (-1)]) /\
+     (exists m3, callf cprog 100 3 F_rstr_free [VPtr (C12_G + 4) 0] m' = Ok (VUndef, m3) /\ skipn (length C12_mk_mem) m3 = [[VPtr C12_G 0]; []; []])) /\
+  rstr_simple false [92; 60; 97; 98]%N = Some (mk_rstr [97; 98]%N false false false true false) /\
+  (str_at C12_mk_mem C12_G [92; 60; 97; 98]%N /\ nth_error C12_mk_mem G_meta = Some gb_meta) /\
+  (match callx (C12_ext_regcomp 1) cprog 100 8 F_rstr_make [VPtr C12_G 0; VInt 1] (cglobals ++ [cstr_block [97; 124; 98]]) with
+   | Ok (v, m') => Some (v, skipn (C12_G + 1) m') | Err _ => None end
+   = Some (VInt 0, [[VPtr C12_G 0]; []; []; []; []; []; []])) /\
+  (match callx (C12_ext_regcomp 0) cprog 100 8 F_rstr_make [VPtr C12_G 0; VInt 1] (cglobals ++ [cstr_block [97; 124; 98]]) with
+   | Ok (v, m') => Some (v, skipn (C12_G + 1) m') | Err _ => None end
+   = Some (VPtr (C12_G + 2) 0,
+           [[VPtr C12_G 0]; [VPtr (C12_G + 3) 0; VInt 0; VInt 1; VInt 0; VInt 0; VInt 0; VInt 0];
+            [VInt 0; VInt 1; VPtr (C12_G + 5) 0; VPtr (C12_G + 6) 0; VInt 3]; []; [VInt 2; VInt 3]; [VInt 0; VUndef]; []])) /\
+  rstr_simple true [97; 124; 98]%N = None.
+Proof.
+  split.
+  { eexists. split; [vm_compute; reflexivity|]. split; [vm_compute; reflexivity|]. split.
+    - eexists. split; [vm_compute; reflexivity|]. vm_compute. reflexivity.
+    - eexists. split; [vm_compute; reflexivity|]. vm_compute. reflexivity. }
+  split; [vm_compute; reflexivity|]. split; [split; vm_compute; reflexivity|].
+  split; [vm_compute; reflexivity|]. split; vm_compute; reflexivity.
+Qed.
